@@ -35,6 +35,28 @@ DELIMS = {'csv': ',', 'tsv': '\t', 'pipe': '|'}
 ALPHA = ['a', '1', ' ', 'DELIM', '"']
 
 
+def export(f, dn, buf, **kw):
+    '''the named wrapper of each format (to_csv, to_tsv) or to_delimited with the delimiter'''
+    if dn == 'csv':
+        f.to_csv(buf, **kw)
+    elif dn == 'tsv':
+        f.to_tsv(buf, **kw)
+    else:
+        f.to_delimited(buf, delimiter=DELIMS[dn], **kw)
+
+
+def import_(dn, text, **kw):
+    if dn == 'csv':
+        return sf.Frame.from_csv(io.StringIO(text), **kw)
+    if dn == 'tsv':
+        return sf.Frame.from_tsv(io.StringIO(text), **kw)
+    return sf.Frame.from_delimited(io.StringIO(text), delimiter=DELIMS[dn], **kw)
+
+
+# cells that are strings although they look like a missing-value spelling once stripped; compared in a middle column only (line ends are stripped by the reader)
+PADDED = [' ', '  ', ' nan', 'None ', ' inf ', ' -inf']
+
+
 def texts(maxlen, delim):
     out = []
     for L in range(1, maxlen + 1):
@@ -149,12 +171,14 @@ def compare(ctx, tag, src, got, info, check_index=True, check_columns=True, exac
 def run_text(case, ctx):
     _, dn, maxlen, (sh, nsh) = case
     delim = DELIMS[dn]
-    ts = [t for t in texts(maxlen, delim) if not ambiguous(t)]
+    ts = [t for t in texts(maxlen, delim) if not ambiguous(t)] + PADDED
     for vi, t in enumerate(ts):
         if vi % nsh != sh:
             continue
         # the text sits in a data cell, in an index label and in a column label, next to a plain string and a number
         for where in ('cell', 'index-label', 'column-label'):
+            if t in PADDED and where != 'cell':
+                continue
             if where == 'cell':
                 f = sf.Frame.from_records([[t, 1], ['plain', 2]], index=('r0', 'r1'), columns=('txt', 'num'), name='f')
             elif where == 'index-label':
@@ -169,9 +193,9 @@ def run_text(case, ctx):
             info = dict(delimiter=dn, where=where, text=t)
             try:
                 buf = io.StringIO()
-                f.to_delimited(buf, delimiter=delim)
+                export(f, dn, buf)
                 exported = buf.getvalue()
-                g = sf.Frame.from_delimited(io.StringIO(exported), delimiter=delim, index_depth=1, columns_depth=1)
+                g = import_(dn, exported, index_depth=1, columns_depth=1)
             except Exception as e:
                 ctx.violation(f'text|{dn}|{where}|{kl}|raises-{type(e).__name__}', **info, error=repr(e))
                 continue
@@ -214,8 +238,8 @@ def run_config(case, ctx):
                 info = dict(kinds=kinds, rows=nr, index_depth=idepth, columns_depth=cdepth, int_index=int_index, delimiter=dn, include_index=inc_i, include_columns=inc_c)
                 try:
                     buf = io.StringIO()
-                    f.to_delimited(buf, delimiter=delim, include_index=inc_i, include_columns=inc_c)
-                    g = sf.Frame.from_delimited(io.StringIO(buf.getvalue()), delimiter=delim, index_depth=idepth if inc_i else 0, columns_depth=cdepth if inc_c else 0)
+                    export(f, dn, buf, include_index=inc_i, include_columns=inc_c)
+                    g = import_(dn, buf.getvalue(), index_depth=idepth if inc_i else 0, columns_depth=cdepth if inc_c else 0)
                 except Exception as e:
                     ctx.violation(f'config|{dn}|raises-{type(e).__name__}|idepth={idepth}|cdepth={cdepth}|index={inc_i}|columns={inc_c}', **info, error=repr(e))
                     continue
@@ -229,8 +253,8 @@ def run_config(case, ctx):
                 ctx.transition()
                 try:
                     buf = io.StringIO()
-                    f2.to_delimited(buf, delimiter=delim, store_filter=None)
-                    g = sf.Frame.from_delimited(io.StringIO(buf.getvalue()), delimiter=delim, index_depth=idepth, columns_depth=cdepth, store_filter=None)
+                    export(f2, dn, buf, store_filter=None)
+                    g = import_(dn, buf.getvalue(), index_depth=idepth, columns_depth=cdepth, store_filter=None)
                     if not eqv(columns_of(g)[j][0], ''):
                         ctx.violation(f'config|{dn}|empty-string-without-filter', kinds=kinds, got=norm(columns_of(g)[j][0]), exported=buf.getvalue())
                 except Exception as e:
